@@ -1181,6 +1181,35 @@ fn main() {
         }
         return;
     }
+    if args.get(1).map(|s| s.as_str()) == Some("module-misc") {
+        // known findings F27 - F29 (C17), side observations of seeding agent C17m confirmed with the real compiler
+        let idx: usize = args.get(2).and_then(|s| s.parse().ok()).unwrap_or(0);
+        // (program, Some(expected first sample) | None = must be rejected, description)
+        let progs: [(&str, Option<f64>, &str); 3] = [
+            ("fn helper() { 1.0 }\nmod m {\n  fn helper() { 2.0 }\n  pub fn run() { helper() }\n}\nfn dsp() { m::run() }\n", Some(2.0),
+             "a bare reference inside module m to m's own function `helper` resolves to an EARLIER top-level function of the same name (with the top-level function declared after the module it resolves to m::helper)"),
+            ("mod outer {\n  mod inner {\n    pub fn f() { 3.0 }\n  }\n}\nfn dsp() { outer::inner::f() }\n", None,
+             "a pub function of the NON-pub nested module outer::inner is referenced from the top level through the qualified path"),
+            ("mod m {\n  fn secret() { 42.0 }\n  pub type alias secret = float\n}\nfn dsp() { m::secret() }\n", None,
+             "the private function m::secret is referenced from outside because a pub type alias of the same name shares its visibility entry"),
+        ];
+        let (src, expect, desc) = progs[idx.min(progs.len() - 1)];
+        let errs = compile_errors(src);
+        match expect {
+            None => {
+                if errs.is_empty() {
+                    println!("FAILS C17[a member not declared pub cannot be referenced from outside its module] {desc}: the program is accepted ({:?})", run_vm(src, 1));
+                } else {
+                    println!("HOLDS rejected: {errs:?}");
+                }
+            }
+            Some(v) => match run_vm(src, 1) {
+                Ok(out) if out == vec![v] => println!("HOLDS"),
+                other => println!("FAILS C17[every accepted reference resolves to the unique definition its module path denotes] {desc}: got {other:?} expected [{v:?}]"),
+            },
+        }
+        return;
+    }
     if args.get(1).map(|s| s.as_str()) == Some("wasm-sched-closure") {
         // known finding F20 (C11): a closure created inside dsp that captures a per-sample local and is scheduled for a
         // later sample; by the time it runs on the WASM runtime its memory has been reused
